@@ -13,7 +13,8 @@ META = {
                    "only &Message and &mut Assembler (type level), so the frame is a function of the message alone. Since round 2 these clauses are decided "
                    "semantically first (W-sem: abstract interpretation of build_message over has_run x number() x variant x call outcomes x bit length "
                    "mod 8, 1948 paths, with the wipe interpreted byte by byte); the template rules above remain as cross-check and as fallback for code "
-                   "outside the interpreter's modelled subset.",
+                   "outside the interpreter's modelled subset. (B-sem) put writes exactly the field's bits inside the "
+                   "window and nothing else: C07's abstract interpretation of put, imported and decided here too.",
     "assumptions": ["has_run == false implies CLEAN is an invariant because false is stored only by new()"],
 }
 
